@@ -48,6 +48,10 @@ def history_worker(seed):
     imps = gen.random_imports(rng, nodes, 10)
     shared = make_graph(nodes, imps)
     other = make_graph(nodes, imps[: len(imps) // 2])
+    extra = [n + ".zz" for n in nodes[:2]] + [nodes[0] + "q"]
+    nodes2 = [n for n in nodes if rng.random() < 0.8 or n.count(".") == 0] + extra
+    nodes2 = list(dict.fromkeys(x for n in nodes2 for x in gen.parents(n) + [n]))
+    other2 = make_graph(nodes2, [e for e in imps if e[0] in nodes2 and e[1] in nodes2] + [(extra[0], nodes2[0])] if extra[0] != nodes2[0] else [])
     before = graph_snapshot(shared)
     problems, lines, results = [], [], []
     n = rng.randint(5, 40)
@@ -63,6 +67,16 @@ def history_worker(seed):
             objs = rng.sample(nodes, rng.randint(1, 2))
             case = gen.rule_case(nodes, imps, shape, sk, ok, subs, objs)
             ops = case["ops"]
+            if rng.random() < 0.35:
+                # a regex subject (its expansion depends on the architecture it is applied to)
+                import re as _re
+                base_name = rng.choice(nodes)
+                pat = rng.choice([_re.escape(base_name) + ".*", _re.escape(base_name.split(".")[0]) + r"\..*", ".*" + _re.escape(base_name[-1]) + "$"])
+                ops = [("mt", None), ("match", pat)] + ops[2:]
+                case = dict(case)
+                case["ops"] = ops
+                case["spec"] = None
+                case["mtab"] = [(pat, [m for m in nodes if _re.match(pat, m)])]
             # build the rule object once; apply to shared, maybe to `other`, and again to shared
             r = Rule()
             for op, arg in ops:
@@ -74,10 +88,13 @@ def history_worker(seed):
                 except AssertionError as e:
                     return "FAIL:" + str(e)
                 except Exception as e:  # noqa: BLE001
-                    return "ERR:" + type(e).__name__
+                    from ..impl import err_kind
+                    return "ERR:" + err_kind(e)
+            if rng.random() < 0.3:
+                apply(r, other2)      # an architecture with a different module set, before the shared one
             got = apply(r, shared)
             if rng.random() < 0.4:
-                apply(r, other)
+                apply(r, rng.choice([other, other2]))
             again = apply(r, shared)
             fresh = _raw_rule(ops, make_graph(nodes, imps))
             if got != again:
@@ -145,7 +162,8 @@ def history_worker(seed):
         except AssertionError as e:
             late = "FAIL:" + str(e)
         except Exception as e:  # noqa: BLE001
-            late = "ERR:" + type(e).__name__
+            from ..impl import err_kind
+            late = "ERR:" + err_kind(e)
         if late != fresh:
             problems.append({"what": "rule object re-applied at the end of the history differs from a fresh evaluation", "ops": ops, "late": late, "fresh": fresh})
     after = graph_snapshot(shared)
